@@ -36,3 +36,8 @@ N("c07-n-pending-neq", "C07", A, ST, "if handle.status is TaskHandle.Status.PEND
 N("c07-n-return-order", "C07", A, ST,
   "        if return_handle:\n            handle._start_value = future.result()\n            return handle\n        else:\n            return future.result()",
   "        if not return_handle:\n            return future.result()\n\n        handle._start_value = future.result()\n        return handle")
+
+# from seeded change C07/b
+M("c07-done-waiter-with-error-cancelled", "C07", A, "CancelScope._deliver_cancellation",
+  "                if not isinstance(waiter, asyncio.Future) or not waiter.done():",
+  "                if (\n                    not isinstance(waiter, asyncio.Future)\n                    or not waiter.done()\n                    or waiter.cancelled()\n                    or waiter.exception() is not None\n                ):", ["R07-f"])
